@@ -135,6 +135,8 @@ pub struct Ctx<W: Write> {
     pub events: u64,
     pub panics: u64,
     pub probe_cap: usize,
+    pub rpool: std::collections::VecDeque<Range>,
+    pub vpool: std::collections::VecDeque<Version>,
 }
 
 fn hash_of(v: &Version) -> u64 {
@@ -226,7 +228,7 @@ fn vres_json(r: &Result<Version, SemverError>) -> Value {
 
 impl<W: Write> Ctx<W> {
     pub fn new(out: W) -> Self {
-        Ctx { out, cid: 0, regs: vec![None; NREG + 1], events: 0, panics: 0, probe_cap: 48 }
+        Ctx { out, cid: 0, regs: vec![None; NREG + 1], events: 0, panics: 0, probe_cap: 48, rpool: Default::default(), vpool: Default::default() }
     }
 
     pub fn emit(&mut self, mut ev: Value) {
@@ -301,8 +303,20 @@ impl<W: Write> Ctx<W> {
             }
             "isect" | "diff" => {
                 let (dst, a, b) = (gi("dst"), gi("a"), gi("b"));
+                let nilok = st.get("nilok").and_then(|x| x.as_bool()).unwrap_or(false);
                 let (ra, rb) = match (self.reg(a), self.reg(b)) {
                     (Some(x), Some(y)) => (x, y),
+                    // a client treats None as the empty set: X - {} = X, X & {} = {} & X = {} - X = {}
+                    (Some(x), None) if nilok && c == "diff" => {
+                        self.emit(json!({"ev":"copy","dst":dst,"a":a}));
+                        self.regs[dst] = Some(x);
+                        return;
+                    }
+                    _ if nilok => {
+                        self.emit(json!({"ev":"setnil","dst":dst}));
+                        self.regs[dst] = None;
+                        return;
+                    }
                     _ => return self.skip(c),
                 };
                 let res = if c == "isect" {
@@ -568,6 +582,28 @@ impl<W: Write> Ctx<W> {
                         "oa":ok(0),"ob":ok(1),"oab":ok(2),"oba":ok(3),
                         "A":bounds_to_json(&structs[0]),"B":bounds_to_json(&structs[1]),
                         "AB":bounds_to_json(&structs[2]),"BA":bounds_to_json(&structs[3]),"obs":obs}));
+                }
+            }
+            "ident" => {
+                // an identity the session must honour: registers l and r admit the same versions / l admits none
+                let (l, r) = (gi("l"), gi("r"));
+                let kind = st.get("kind").and_then(|x| x.as_str()).unwrap_or("eq").to_string();
+                let (rl, rr_) = (self.reg(l), self.reg(r));
+                let sl = rl.as_ref().map(|x| x.verif_bounds()).unwrap_or_default();
+                let sr = rr_.as_ref().map(|x| x.verif_bounds()).unwrap_or_default();
+                let ps = probes(&[&sl, &sr], self.probe_cap);
+                let (c1, c2) = (rl.clone(), rr_.clone());
+                let obs = self.call("satisfies", move || {
+                    ps.iter()
+                        .map(|v| {
+                            json!({"v":ver_to_json(v),
+                                   "l":c1.as_ref().map(|x| x.satisfies(v)).unwrap_or(false),
+                                   "r":c2.as_ref().map(|x| x.satisfies(v)).unwrap_or(false)})
+                        })
+                        .collect::<Vec<_>>()
+                });
+                if let Some(obs) = obs {
+                    self.emit(json!({"ev":"ident","kind":kind,"l":l,"r":r,"lnil":rl.is_none(),"rnil":rr_.is_none(),"obs":obs}));
                 }
             }
             "rany" => {
@@ -859,6 +895,116 @@ impl<W: Write> Ctx<W> {
         }
     }
 
+    /// C06: both parsers on one text, then every operation on whatever they returned, against itself and
+    /// against the most recently produced values.  Every call is wrapped; a panic is an event.
+    pub fn soup(&mut self, text: &str) {
+        let t0 = Instant::now();
+        let mut ops = 0u64;
+        self.vparse(text);
+        self.rparse(1, text, None, None);
+        let v = self.call("Version::parse", || Version::parse(text)).and_then(|x| x.ok());
+        let r = self.reg(1);
+        let probe_list: Vec<Version> = {
+            let mut l: Vec<Version> = self.vpool.iter().cloned().collect();
+            if let Some(r) = &r {
+                l.extend(probes(&[&r.verif_bounds()], 16));
+            }
+            if let Some(v) = &v {
+                l.push(v.clone());
+            }
+            l
+        };
+        if let Some(r) = &r {
+            let others: Vec<Range> = std::iter::once(r.clone()).chain(self.rpool.iter().cloned()).collect();
+            let pl = probe_list.clone();
+            let rc = r.clone();
+            ops += self.call("to_string", || rc.to_string().len() + format!("{:?}", rc).len()).map(|_| 2).unwrap_or(0);
+            ops += self.call("min_version", || rc.min_version().map(|m| m.to_string().len())).map(|_| 1).unwrap_or(0);
+            ops += self.call("max_satisfying", || (rc.max_satisfying(&pl).is_some(), rc.min_satisfying(&pl).is_some())).map(|_| 2).unwrap_or(0);
+            ops += self.call("satisfies", || pl.iter().filter(|v| rc.satisfies(v) && v.satisfies(&rc)).count()).map(|_| pl.len() as u64).unwrap_or(0);
+            for q in &others {
+                let (a, b) = (r.clone(), q.clone());
+                let i1 = self.call("intersect", || (a.intersect(&b), b.intersect(&a)));
+                let (a, b) = (r.clone(), q.clone());
+                let d1 = self.call("difference", || (a.difference(&b), b.difference(&a)));
+                let (a, b) = (r.clone(), q.clone());
+                self.call("allows_any", || (a.allows_any(&b), b.allows_any(&a)));
+                let (a, b) = (r.clone(), q.clone());
+                self.call("allows_all", || (a.allows_all(&b), b.allows_all(&a)));
+                ops += 8;
+                // compositions: results as operands, printed, re-parsed, minimised
+                let mut derived: Vec<Range> = Vec::new();
+                if let Some((x, y)) = i1 {
+                    derived.extend(x);
+                    derived.extend(y);
+                }
+                if let Some((x, y)) = d1 {
+                    derived.extend(x);
+                    derived.extend(y);
+                }
+                for dres in derived.iter().take(4) {
+                    let (a, b, c) = (dres.clone(), r.clone(), q.clone());
+                    self.call("to_string", || Range::parse(a.to_string()).is_ok());
+                    let a = dres.clone();
+                    self.call("min_version", || a.min_version().is_some());
+                    let a = dres.clone();
+                    self.call("difference", || (a.difference(&b).is_some(), c.difference(&a).is_some()));
+                    let (a, b) = (dres.clone(), r.clone());
+                    self.call("intersect", || a.intersect(&b).map(|z| z.allows_all(&a)));
+                    ops += 5;
+                }
+            }
+            self.rpool.push_front(r.clone());
+            self.rpool.truncate(5);
+        }
+        if let Some(v) = &v {
+            let pool: Vec<Version> = self.vpool.iter().cloned().collect();
+            let vc = v.clone();
+            self.call("diff", || pool.iter().map(|w| (vc.diff(w), w.diff(&vc), vc.cmp(w), vc == *w)).count());
+            let vc = v.clone();
+            let rp: Vec<Range> = self.rpool.iter().cloned().collect();
+            self.call("satisfies", || rp.iter().filter(|r| vc.satisfies(r)).count());
+            ops += 2;
+            self.vpool.push_front(v.clone());
+            self.vpool.truncate(4);
+        }
+        let us = t0.elapsed().as_micros().min(2_000_000_000) as u64;
+        self.emit(json!({"ev":"soup","len":text.len() as u64,"vok":v.is_some(),"rok":r.is_some(),"ops":ops,"us":us}));
+    }
+
+    /// C06, linear time: the same token repeated to n, 2n, 4n, 8n bytes; minimum of three runs each.
+    pub fn timing(&mut self, st: &Value) {
+        let unit = st.get("unit").and_then(unbytes).unwrap_or_default();
+        let parser = st.get("parser").and_then(|x| x.as_str()).unwrap_or("range").to_string();
+        let n0 = st.get("n").and_then(|x| x.as_u64()).unwrap_or(16384) as usize;
+        let mut sizes = Vec::new();
+        let mut times = Vec::new();
+        for k in 0..4 {
+            let target = n0 << k;
+            let text = unit.repeat((target / unit.len().max(1)).max(1));
+            let mut best = u64::MAX;
+            for _ in 0..3 {
+                let t0 = Instant::now();
+                let t = text.clone();
+                let p = parser.clone();
+                let ok = self.call(if parser == "range" { "Range::parse" } else { "Version::parse" }, move || {
+                    if p == "range" {
+                        Range::parse(&t).map(|r| r.to_string().len()).unwrap_or(0)
+                    } else {
+                        Version::parse(&t).map(|r| r.to_string().len()).unwrap_or(0)
+                    }
+                });
+                if ok.is_none() {
+                    return;
+                }
+                best = best.min(t0.elapsed().as_micros().min(2_000_000_000) as u64);
+            }
+            sizes.push(text.len() as u64);
+            times.push(best);
+        }
+        self.emit(json!({"ev":"timing","parser":parser,"unit":bytes(&unit),"n":sizes,"us":times}));
+    }
+
     // ------------------------------------------------------------ cases
     pub fn run_case(&mut self, case: &Value) {
         for r in self.regs.iter_mut() {
@@ -899,6 +1045,11 @@ impl<W: Write> Ctx<W> {
                     self.step(s);
                 }
             }
+            "soup" => {
+                let text = case.get("text").and_then(unbytes).unwrap_or_default();
+                self.soup(&text);
+            }
+            "timing" => self.timing(case),
             "steps" => {
                 if let Some(steps) = case.get("steps").and_then(|x| x.as_array()) {
                     for s in steps {
